@@ -297,12 +297,15 @@ def run_spec(spec):
     return drive_sync()
 
 
+MIN_CASES = 2000  # a loaded machine does not shrink what is explored (time cap: 10x the budget)
+
+
 def run(limit_s, seed):
     rng = random.Random(seed)
     t0 = time.time()
     n = 0
     skipped = 0
-    while time.time() - t0 < limit_s:
+    while time.time() - t0 < limit_s or (n < MIN_CASES and time.time() - t0 < 10 * limit_s):
         spec = gen_spec(rng)
         try:
             diff = run_spec(spec)
